@@ -24,7 +24,7 @@ RULE = ("(instants include wall-clock times inside spring-forward gaps of six ti
         "compared; distinct = distinct (year leap?, day class, time-of-day class, level) signatures")
 ASSUMPTIONS = ["decimal seconds are written with at most 6 decimals, so microsecond exactness is attainable",
                "attitude points carry no year: the convention is 1 January of the platform-position year, as the property states"]
-REQUIRED_OBS = ["products", "time_leaves_compared", "relational_checks"]
+REQUIRED_OBS = ["products", "time_leaves_compared", "relational_checks", "earlier_day_second"]
 N = {"quick": 360, "thorough": 6000}
 KEY = "C17/attitude-time-one-day-late"
 DAY_CLASSES = ["d1", "d59", "d60", "d61", "d365", "d366", "rand", "rand"]
@@ -59,6 +59,26 @@ def run_case(i, tier, seed):
     rng = random.Random(f"C17-{seed}-{i}")
     inst, cls = _instant(i, tier, seed, rng)
     level = ["1.1", "1.5"][i % 2]
+    r = _one_product(i, tier, seed, rng, inst, cls, level)
+    if i % 3 == 1:
+        # the same process then opens a product acquired on the DAY BEFORE (a little later in the day): anything a decoder
+        # remembers about "the current day" from the first product must not leak into the second
+        import datetime
+
+        d = datetime.date(inst["year"], 1, 1) + datetime.timedelta(days=inst["doy"] - 2)
+        earlier = {"year": d.year, "doy": (d - datetime.date(d.year, 1, 1)).days + 1, "ms": min(86399999, inst["ms"] + rng.randrange(0, 3600000)), "us": inst["us"]}
+        r2 = _one_product(i, tier, seed, rng, earlier, cls + "|day-before", level)
+        for v in r2["violations"]:
+            v["what"] = "[second product of this process, acquired one day before the first] " + v["what"]
+        r["violations"] += r2["violations"]
+        r["evals"] += r2["evals"]
+        for k2, v2 in r2["obs"].items():
+            r["obs"][k2] = r["obs"].get(k2, 0) + v2
+        r["obs"]["earlier_day_second"] = 1
+    return r
+
+
+def _one_product(i, tier, seed, rng, inst, cls, level):
     typ = gen.LEVELS[level][1]
     names = gen.product_names(level, pols=("HH", "HV"))
     tx = gen.instant_texts(inst)
